@@ -27,9 +27,14 @@ def tau(scale: float) -> float:
     return 1e-5 * max(1.0, abs(scale))
 
 
+EXACT = False  # boundary-builder instances: arithmetic is exact, so equality is decidable (tau = 0)
+
+
 def band(slack: float, scale: float = 1.0) -> str:
     if slack != slack:
         return "not"
+    if EXACT:
+        return "must" if slack >= 0 else "not"
     t = tau(scale)
     if slack > t:
         return "must"
